@@ -109,20 +109,21 @@ theorem writer_loop_tie (ks : List Thread) (u : Updater) (k F : Nat) (ws : Nat ‚
       obtain ‚ü®name, c, hv, hn‚ü© := value_notice m hw
       simp only [hs, WStep.inputs, WStep.recv, hv, inputsAt, and_true] at hii
       rcases hn with hn | hn <;> subst hn <;>
-        simp [rs_eval, rs_code, hii] <;>
+        simp [rs_eval, rs_code, abstracted, hii] <;>
         simp [weventsBefore, winputsBefore, hs, WStep.events, WStep.inputs, WStep.recv, hv, chanValue, Nat.add_assoc]
     | disconnected =>
       simp only [hs, WStep.inputs, WStep.recv, inputsAt, and_true] at hii
-      simp [rs_eval, rs_code, hii]
+      simp [rs_eval, rs_code, abstracted, hii]
       simp [weventsBefore, winputsBefore, hs, WStep.events, WStep.inputs, WStep.recv, chanValue, Nat.add_assoc]
   case a => omega
-  rw [evalWhile_step (n := F + 95)]
+  rw [evalWhile_step]
   case hc => simp [rs_eval]
   cases e with
   | abort =>
     simp only [WEnd.inputs, Recv.value, RMsg.value, inputsAt, and_true] at hend
-    simp [rs_eval, rs_code, hend]
-    rw [evalWhile_succ]
+    simp [rs_eval, rs_code, abstracted, hend]
+    -- a flag-controlled `while` goes round once more and finds its condition false; a `loop` has left by `break`
+    try rw [evalWhile_succ]
     simp [rs_eval, wloopResult, wloopEvents, Recv.value, RMsg.value, chanValue, Nat.add_assoc]
   | handlerPanic s =>
     have hd := he s rfl
